@@ -161,6 +161,29 @@ Qed.
 (* ------------------------------------------------------------------ the constructor in terms of fields *)
 Definition dflt (o : option Z) : Z := match o with Some c => c | None => 0 end.
 
+(* the depth marker that stays in the value: the true-colour marker is dropped when no true colour is used *)
+Definition out_mode (md : mode) (k bk : kind) : mode :=
+  match md with MTrue => if is_true k || is_true bk then MTrue else M256 | _ => md end.
+
+Lemma drop_marker_pack md fn ss k bn bk : low24 fn -> low24 bn ->
+  drop_marker (pack (marker md) fn (F ss k) bn (bgflag bk)) = pack (marker (out_mode md k bk)) fn (F ss k) bn (bgflag bk).
+Proof.
+  intros Hfn Hbn.
+  assert (OK : PackOK (marker md) fn (F ss k) bn (bgflag bk))
+    by (constructor; auto using marker_sub, F_sub, bgflag_sub).
+  destruct masks_in_RF as [_ [_ [F3 _]]]. destruct masks_in_RB as [_ [_ B3]].
+  destruct (F_val ss k) as [_ [_ V3]].
+  unfold drop_marker. rewrite (Z.lor_comm FG_TRUE_COLOR BG_TRUE_COLOR).
+  rewrite (acc_ff_bf _ _ _ _ _ OK _ _ F3 B3), V3.
+  destruct (is_true k || is_true bk) eqn:T.
+  - replace (Z.lor (Z.land (bgflag bk) BG_TRUE_COLOR) (bz (is_true k) FG_TRUE_COLOR) =? 0) with false
+      by (destruct k, bk; try discriminate T; reflexivity).
+    destruct md; cbn [out_mode]; rewrite ?T; reflexivity.
+  - replace (Z.lor (Z.land (bgflag bk) BG_TRUE_COLOR) (bz (is_true k) FG_TRUE_COLOR) =? 0) with true
+      by (destruct k, bk; try discriminate T; reflexivity).
+    rewrite (pack_clear _ _ _ _ _ OK). destruct md; cbn [out_mode]; rewrite ?T; reflexivity.
+Qed.
+
 Definition build (md : mode) (fg : list part) (bg : desc) : res Z :=
   match fg_abs md fg None ss_empty KNone with
   | RErr e w => RErr e w
@@ -168,17 +191,18 @@ Definition build (md : mode) (fg : list part) (bg : desc) : res Z :=
       match part_color md bg with
       | Err e => RErr e 0
       | Ok None => RErr AttrSpecError 4
-      | Ok (Some bn) => ROk (pack (marker md) (dflt fcol) (F ss k) bn (bgflag (part_kind md bg)))
+      | Ok (Some bn) =>
+          ROk (pack (marker (out_mode md k (part_kind md bg))) (dflt fcol) (F ss k) bn (bgflag (part_kind md bg)))
       end
   end.
 
 Lemma attrspec_new_build D fg bg :
-  Forall (wf_part (mode_of D)) fg ->
+  Forall (wf_part (mode_of D)) fg -> wf_desc (mode_of D) bg ->
   attrspec_new fg bg D =
   if negb (valid_depth D) then RErr AttrSpecError 6
   else rbind (build (mode_of D) fg bg) (fun v => if D <? attr_colors v then RErr AttrSpecError 5 else ROk v).
 Proof.
-  intros W. unfold attrspec_new. destruct (negb (valid_depth D)); [reflexivity|].
+  intros W Wb. unfold attrspec_new. destruct (negb (valid_depth D)); [reflexivity|].
   rewrite init_marker. set (md := mode_of D) in *. unfold build, set_foreground.
   rewrite <- F_empty. rewrite (fg_loop_abs md (marker md)) by (auto; reflexivity).
   destruct (fg_abs md fg None ss_empty KNone) as [[[fcol ss] k]|e w] eqn:EF; cbn [rbind fst snd]; [|reflexivity].
@@ -189,7 +213,14 @@ Proof.
   unfold set_background.
   rewrite (parse_part_mode _ md bg).
   2:{ intros M HM. apply pack1_marker; auto using marker_sub, F_sub. }
-  destruct (part_color md bg) as [[bn|]|e]; cbn [bind lift rbind fst snd]; reflexivity.
+  destruct (part_color_total md bg Wb) as [o [Eo Ro]]. rewrite Eo.
+  destruct o as [bn|]; cbn [bind lift rbind fst snd]; [|reflexivity].
+  change (kflag BG_BASIC_COLOR BG_HIGH_COLOR BG_TRUE_COLOR (part_kind md bg)) with (bgflag (part_kind md bg)).
+  pose proof (drop_marker_pack md (dflt fcol) ss k bn (part_kind md bg) Hfn (Ro bn eq_refl)) as DM.
+  match goal with |- context [drop_marker ?x] =>
+    replace (drop_marker x) with (pack (marker (out_mode md k (part_kind md bg))) (dflt fcol) (F ss k) bn (bgflag (part_kind md bg)))
+      by (symmetry; exact DM) end.
+  reflexivity.
 Qed.
 
 Lemma build_ok md fg bg v :
@@ -197,15 +228,14 @@ Lemma build_ok md fg bg v :
   exists fcol ss k bn,
     fg_abs md fg None ss_empty KNone = ROk (fcol, ss, k) /\
     part_color md bg = Ok (Some bn) /\
-    v = pack (marker md) (dflt fcol) (F ss k) bn (bgflag (part_kind md bg)) /\
-    PackOK (marker md) (dflt fcol) (F ss k) bn (bgflag (part_kind md bg)).
+    v = pack (marker (out_mode md k (part_kind md bg))) (dflt fcol) (F ss k) bn (bgflag (part_kind md bg)) /\
+    low24 (dflt fcol) /\ low24 bn.
 Proof.
   intros W Wb E. unfold build in E.
   destruct (fg_abs md fg None ss_empty KNone) as [[[fcol ss] k]|e w] eqn:EF; [|discriminate].
   destruct (part_color_total md bg Wb) as [o [Eo Ro]]. rewrite Eo in E.
   destruct o as [bn|]; [|discriminate]. injection E as <-.
-  exists fcol, ss, k, bn. split; [reflexivity|]. split; [exact Eo|]. split; [reflexivity|].
-  constructor; auto using marker_sub, F_sub, bgflag_sub.
+  exists fcol, ss, k, bn. split; [reflexivity|]. split; [exact Eo|]. split; [reflexivity|]. split; [|now apply Ro].
   destruct fcol as [c|]; cbn [dflt]; [|unfold low24; lia].
   eapply (fg_abs_range md fg None ss_empty KNone); eauto. discriminate.
 Qed.
